@@ -21,6 +21,7 @@ CONSTANTS
   GenDefaults = {"b"}
   GenLiteOmit = {0}
   GenFixedSub = {"mod2"}
+  GenFullKinds = {"ReadOk", "ReadRaise", "ReadInvalid", "Write", "Assign", "AnnounceErr", "Untouched"}
   GenExtra = {"Deact"}
 CONSTRAINT Bound
 INVARIANT EmitMax
